@@ -843,6 +843,69 @@ func TestC04(t *testing.T) {
 			break
 		}
 	}
+	// keytab record walk: record lengths of every sign and size, holes, files that end inside a length
+	{
+		r0 := NewRNG(Seed() + 7)
+		k0 := keytab.New()
+		k0.AddEntry("HTTP/h", "R", "pw", time.Unix(1600000000, 0), 1, 18)
+		k0.AddEntry("u", "R", "pw", time.Unix(1600000000, 0), 2, 23)
+		k0.AddEntry("host/x", "R", "pw", time.Unix(1600000000, 0), 200, 17)
+		good, _ := k0.Marshal()
+		lens := [][]byte{{0, 0, 0, 0}, {0, 0, 0, 1}, {0xff, 0xff, 0xff, 0xff}, {0x80, 0, 0, 0}, {0x7f, 0xff, 0xff, 0xff}, {0xff, 0xff, 0xff, 0xf0}, {0, 0, 0, 60}, {0x80, 0, 0, 1}, {0xff, 0xff, 0xff, 0xc4}}
+		for i := 0; i < 1500; i++ {
+			b := append([]byte{}, good...)
+			switch r0.Intn(5) {
+			case 0: // a length field of the file replaced
+				p := 2
+				for k := r0.Intn(3); k > 0 && p+4 <= len(b); k-- {
+					p += 4 + int(int32(binary.BigEndian.Uint32(b[p:])))
+				}
+				if p+4 <= len(b) && p >= 2 {
+					copy(b[p:], lens[r0.Intn(len(lens))])
+				}
+			case 1:
+				b = b[:r0.Intn(len(b)+1)]
+			case 2:
+				b = append(b, lens[r0.Intn(len(lens))]...)
+				b = append(b, r0.Bytes(r0.Intn(12))...)
+			case 3:
+				b = append([]byte{5, byte(1 + r0.Intn(2))}, lens[r0.Intn(len(lens))]...)
+				b = append(b, r0.Bytes(r0.Intn(70))...)
+			case 4:
+				b[1] = byte(r0.Intn(4))
+				p := r0.Intn(len(b))
+				b[p] = byte(r0.U64())
+			}
+			var kt keytab.Keytab
+			var err error
+			pan := Protect(func() { err = kt.Unmarshal(b) })
+			mo := m.Ask("tt.ktwalk 1 " + X(b))
+			v.Case(fmt.Sprintf("ktwalk/%d", i), "keytab record walk vs model -> "+strings.Fields(mo + " -")[0])
+			bad := ""
+			switch {
+			case pan != "":
+				bad = "Keytab.Unmarshal panics: " + pan
+			case strings.HasPrefix(mo, "crash"):
+				bad = "the model of the record walk crashes where Go does not"
+			case strings.HasPrefix(mo, "err") && err == nil:
+				bad = "Go accepts a file whose record structure the model rejects"
+			case err == nil && strings.HasPrefix(mo, "ok"):
+				var n int
+				fmt.Sscanf(mo, "ok %d", &n)
+				if n != len(kt.Entries) {
+					bad = fmt.Sprintf("Go reads %d entries, the model's walk finds %d records", len(kt.Entries), n)
+				}
+			}
+			if bad != "" {
+				kind := "correspondence"
+				if pan != "" {
+					kind = "failing-input"
+				}
+				v.Violate(kind, "c04:ktwalk-model", bad, map[string]string{"input": X(b), "go-error": fmt.Sprint(err), "model": mo})
+				break
+			}
+		}
+	}
 	// UPN_DNS_INFO: 16-bit offsets and lengths against buffers on both sides of 64 KiB
 	{
 		sizes := []int{12, 13, 100, 65535, 65536, 65537, 70000, 131072}
